@@ -178,4 +178,124 @@ func init() {
 		Outside: []string{"true parallel executions and the race detector's view (decided here: the lock discipline on every sequential path plus unsubscription by a second goroutine at callback boundaries)", "callbacks that re-enter the Connection themselves", "Go's map iteration order is taken as insertion order (assertions are order-insensitive across callbacks)"},
 		Oracle:  "flat list of (callback, kind, type, active, position of the log at which its remover returned): after every dispatch each active matching callback was invoked exactly once with the event, no other, and no callback is invoked at a log position after its remover returned",
 	}
+
+	c20 := func(lims []int, n int, seg int) []hrun {
+		var r []hrun
+		for _, l := range lims {
+			r = append(r, hrun{Harness: "vhC20Read", Params: P("L", l, "N", n, "SEG", seg), Covers: []string{"C20/Read/too-long", "C20/Read/all-fit"}})
+			r = append(r, hrun{Harness: "vhC20Conn", Params: P("L", l, "N", n, "SEG", seg, "BUFMAX", l+1), Covers: []string{"C20/Conn/too-long", "C20/Conn/all-fit"}})
+		}
+		// the limit given by the caller's buffer alone: Connection.Buffer(buf, 0)
+		r = append(r, hrun{Harness: "vhC20Conn", Params: P("L", 0, "N", n-1, "SEG", seg, "BUFMAX", 3), Covers: []string{"C20/Conn/too-long", "C20/Conn/all-fit"}})
+		return r
+	}
+	checks["C20"] = &propCheck{
+		ID: "C20", Quick: c20([]int{2, 3, 4}, 5, 1), Thorough: append(c20([]int{2, 3, 4, 5, 6}, 6, 1), c20([]int{7, 8}, 8, 0)...),
+		Labels: []string{"C20/", "panic:"},
+		Bounds: map[string]string{
+			"quick":    "limit L in {2,3,4} through ReadConfig.MaxEventSize and through Connection.Buffer(buf, L) with an initial buffer of every capacity 0..L+1 (or nil); every stream <=5 bytes (all byte values), every segmentation into read chunks; the real bufio.Scanner buffer growth/compaction logic runs with these small numbers",
+			"thorough": "L in {2..6} with streams <=6 bytes and all segmentations; L in {7,8} with streams <=8 bytes in one chunk",
+		},
+		Outside: []string{"the default 4 KiB start and 64 KiB limit themselves (same scanner code with larger constants - not decided here)", "allocation failure"},
+		Oracle:  "independent tokenisation of the stream (blank lines + event + terminating blank line): a token longer than the effective limit max(L, cap(buf)) must yield bufio.ErrTooLong after exactly the events of the earlier tokens and at most limit bytes read beyond the last completed token; if every token is smaller than the limit, no ErrTooLong and the events equal the WHATWG oracle's; at the boundary either, but never a truncated or altered event; no Go panic on any path",
+	}
+
+	checks["C01"] = &propCheck{
+		ID: "C01",
+		Quick: []hrun{
+			{Harness: "vhC01Read", Params: P("N", 4, "SEG", 1, "STOP", 1), Covers: []string{"C01/Read/some-event", "C01/Read/stopped-early"}},
+			{Harness: "vhC01Read", Params: P("N", 7, "SEG", 0, "STOP", 0), Covers: []string{"C01/Read/some-event"}},
+			{Harness: "vhC01Conn", Params: P("N", 4, "SEG", 1), Covers: []string{"C01/Conn/some-event"}},
+			{Harness: "vhC01Conn", Params: P("N", 6, "SEG", 0), Covers: []string{"C01/Conn/some-event"}},
+			{Harness: "vhC01ReadTpl", Params: P("LINES", 1, "HOLE", 2), Covers: []string{"C01/ReadTpl/some-event"}},
+			{Harness: "vhC01ConnTpl", Params: P("LINES", 1, "HOLE", 2), Covers: []string{"C01/ConnTpl/some-event", "C01/ConnTpl/some-retry"}},
+			{Harness: "vhC01ReadTpl", Params: P("LINES", 2, "HOLE", 0), Covers: []string{"C01/ReadTpl/some-event"}},
+			{Harness: "vhC01ConnTpl", Params: P("LINES", 3, "HOLE", 0, "NAMES", 2, "PREFIXES", 1), Covers: []string{"C01/ConnTpl/some-event"}},
+		},
+		Thorough: []hrun{
+			{Harness: "vhC01ConnTpl", Params: P("LINES", 3, "HOLE", 0, "NAMES", 3, "PREFIXES", 1), Covers: []string{"C01/ConnTpl/some-event"}},
+			{Harness: "vhC01Read", Params: P("N", 6, "SEG", 1, "STOP", 1), Covers: []string{"C01/Read/some-event", "C01/Read/stopped-early"}},
+			{Harness: "vhC01Read", Params: P("N", 5, "SEG", 1, "STOP", 0, "EOFWITH", 1), Covers: []string{"C01/Read/some-event"}},
+			{Harness: "vhC01Read", Params: P("N", 9, "SEG", 0, "STOP", 0), Covers: []string{"C01/Read/some-event"}},
+			{Harness: "vhC01Conn", Params: P("N", 5, "SEG", 1), Covers: []string{"C01/Conn/some-event"}},
+			{Harness: "vhC01Conn", Params: P("N", 8, "SEG", 0), Covers: []string{"C01/Conn/some-event"}},
+			{Harness: "vhC01ReadTpl", Params: P("LINES", 2, "HOLE", 1), Covers: []string{"C01/ReadTpl/some-event"}},
+			{Harness: "vhC01ConnTpl", Params: P("LINES", 1, "HOLE", 3), Covers: []string{"C01/ConnTpl/some-event", "C01/ConnTpl/some-retry"}},
+		},
+		Labels: []string{"C01/", "panic:"},
+		Bounds: map[string]string{
+			"quick":    "every byte string <=4 bytes x every segmentation into read chunks x early stop after 0/1/2 events (Read) and x initial last-event-ID <=1 byte (Connection); every byte string <=7 (Read) / <=6 (Connection) bytes delivered in one chunk; templates: prefix in {none, BOM, LF BOM, CRLF BOM} + one line (name in {data,event,id,retry,'',dat,datas}, optional ':' / ': ', hole of <=2 symbolic bytes) + terminator in {LF,CR,CRLF,none} + tail in {none,LF,CRLF}; all two-line templates without holes; all three-line templates over {data,event} without holes",
+			"thorough": "all strings <=6 bytes x all segmentations (Read) / <=5 (Connection); <=9 / <=8 bytes in one chunk; EOF delivered together with the last bytes; two-line templates with 1-byte holes, one-line templates with 3-byte holes",
+		},
+		Outside: []string{"streams longer than the bound that match no template", "events straddling the real 4 KiB / 64 KiB scanner buffers (C20 decides the same scanner logic at small limits)", "decoding of invalid UTF-8 to U+FFFD (oracle and go-sse are byte-transparent)", "retry values with more digits than the bound"},
+		Oracle:  "harness/sse_oracle.go vhSpecInterpret: one pass over the complete byte string following HTML 9.2.5-9.2.6 with go-sse's three documented adaptations; compared on (event list, error identity, retry-callback values and their position among events, stored last event ID)",
+	}
+	checks["C11"] = &propCheck{
+		ID: "C11",
+		Quick: []hrun{
+			{Harness: "vhC11Read", Params: P("N", 4, "SEG", 1), Covers: []string{"C11/Read/failing-reader"}},
+			{Harness: "vhC11ConnRead", Params: P("N", 4, "SEG", 1), Covers: []string{"C11/ConnRead/failing-reader"}},
+			{Harness: "vhC11ConnRead", Params: P("N", 6, "SEG", 0), Covers: []string{"C11/ConnRead/failing-reader"}},
+			{Harness: "vhC11Connect", Params: P("A", 2, "CANCEL", 1, "BODYKINDS", 1, "TPLMASK", 7), Covers: []string{"C11/Connect/cancelled", "C11/Connect/retries-exhausted", "C11/Connect/validator-rejected"}, NoNative: true},
+			{Harness: "vhC11Connect", Params: P("A", 3, "CANCEL", 0, "BODYKINDS", 1, "TPLMASK", 1, "SENTINEL", 1), Covers: []string{"C11/Connect/retries-exhausted"}},
+			{Harness: "vhC11Connect", Params: P("A", 3, "CANCEL", 0, "BODYKINDS", 5, "TPLMASK", 9), Covers: []string{"C11/Connect/retries-exhausted", "C11/Connect/body-reset-failed"}},
+		},
+		Thorough: []hrun{
+			{Harness: "vhC11Connect", Params: P("A", 3, "CANCEL", 1, "BODYKINDS", 1, "TPLMASK", 7), Covers: []string{"C11/Connect/cancelled", "C11/Connect/retries-exhausted", "C11/Connect/validator-rejected"}, NoNative: true},
+			{Harness: "vhC11Connect", Params: P("A", 4, "CANCEL", 0, "BODYKINDS", 5, "TPLMASK", 9), Covers: []string{"C11/Connect/retries-exhausted", "C11/Connect/body-reset-failed"}},
+			{Harness: "vhC11Read", Params: P("N", 5, "SEG", 1), Covers: []string{"C11/Read/failing-reader"}},
+			{Harness: "vhC11ConnRead", Params: P("N", 5, "SEG", 1), Covers: []string{"C11/ConnRead/failing-reader"}},
+			{Harness: "vhC11ConnRead", Params: P("N", 8, "SEG", 0), Covers: []string{"C11/ConnRead/failing-reader"}},
+		},
+		Labels: []string{"C11/", "panic:"},
+		Bounds: map[string]string{
+			"quick":    "every stream <=4 bytes x every segmentation x {clean EOF, read error after the last byte, read error delivered together with the last bytes}; <=6 bytes in one chunk; the Connect loop against a scripted transport: scripts of <=2 attempts (each: transport failure / rejected response / 200 with one of 3 template streams ending cleanly or with a read error), MaxRetries in {-1,1,2}, cancellation before Do / at every byte offset of the body / while waiting for the retry timer; scripts of <=3 attempts without cancellation over 5 request-body kinds; scripts of <=3 attempts whose transport / read errors may be context.DeadlineExceeded / context.Canceled while the request context is live",
+			"thorough": "<=5 bytes x all segmentations; <=8 bytes in one chunk",
+		},
+		Outside: []string{"real transports"},
+		Oracle:  "the reader's own error whenever the reader failed (never ErrUnexpectedEOF instead), ErrUnexpectedEOF iff the stream ended cleanly in a non-empty unterminated line, io.EOF / nothing for a clean end; Connection.read never returns nil; events completed before the failure are delivered, the pending one is dropped",
+	}
+
+	checks["C10"] = &propCheck{
+		ID: "C10",
+		Quick: []hrun{
+			{Harness: "vhC10Connect", Params: P("A", 3, "CANCEL", 0, "BODYKINDS", 1, "TPLMASK", 39), Covers: []string{"C10/Connect/header-sent"}},
+			{Harness: "vhC10Connect", Params: P("A", 3, "CANCEL", 0, "BODYKINDS", 5, "TPLMASK", 1), Covers: []string{"C10/Connect/getbody-failed"}},
+		},
+		Thorough: []hrun{
+			{Harness: "vhC10Connect", Params: P("A", 4, "CANCEL", 0, "BODYKINDS", 1, "TPLMASK", 39), Covers: []string{"C10/Connect/header-sent"}},
+			{Harness: "vhC10Connect", Params: P("A", 3, "CANCEL", 1, "BODYKINDS", 1, "TPLMASK", 7), Covers: []string{"C10/Connect/header-sent"}, NoNative: true},
+			{Harness: "vhC10Connect", Params: P("A", 4, "CANCEL", 0, "BODYKINDS", 5, "TPLMASK", 3), Covers: []string{"C10/Connect/getbody-failed"}},
+		},
+		Labels: []string{"C10/", "panic:"},
+		Bounds: map[string]string{
+			"quick":    "the real Connect loop against a scripted transport: scripts of <=3 attempts, each a transport failure, a rejected response, or a 200 response streaming one of 4 templates (data only; id:<symbolic byte>; id:<symbolic byte> cut before its blank line; id:7 then an empty id) ending cleanly or with a read error; MaxRetries in {-1,1,2}; request-body kinds {none, NoBody, with GetBody, without GetBody, GetBody failing at its 1st or 2nd call}",
+			"thorough": "scripts of <=4 attempts; cancellation at every point added for <=3 attempts",
+		},
+		Outside: []string{"real transports and the real http.Client.Do (stub: Transport.RoundTrip, failures wrapped in *url.Error)", "requests that already carry a Last-Event-ID header", "timers fire as soon as they are armed"},
+		Oracle:  "header at attempt a = LastEventID of the last event the WHATWG oracle dispatches over all earlier streams (an id in an event cut before its blank line counts only if the body ended cleanly; NUL ids ignored), absent when empty; a body is re-obtained through GetBody for every retry, ErrNoGetBody / GetBody's error ends Connect without a further request",
+	}
+	checks["C12"] = &propCheck{
+		ID: "C12",
+		Quick: []hrun{
+			{Harness: "vhC12Merge", Covers: []string{"C12/Merge/jitter-minus-one"}},
+			{Harness: "vhC12Logic", Params: P("K", 3), Covers: []string{"C12/Logic/limit-hit", "C12/Logic/elapsed-refusal", "C12/Logic/retry-granted"}, NoNative: true},
+			{Harness: "vhC12Connect", Params: P("A", 2, "CANCEL", 0, "BODYKINDS", 1, "TPLMASK", 17, "RDIGITS", 2), Covers: []string{"C12/Connect/server-retry-used"}},
+			{Harness: "vhC12Connect", Params: P("A", 3, "CANCEL", 0, "BODYKINDS", 1, "TPLMASK", 9), Covers: []string{"C11/Connect/retries-exhausted"}},
+		},
+		Thorough: []hrun{
+			{Harness: "vhC12Merge", Covers: []string{"C12/Merge/jitter-minus-one"}},
+			{Harness: "vhC12Logic", Params: P("K", 4), Covers: []string{"C12/Logic/limit-hit", "C12/Logic/elapsed-refusal", "C12/Logic/retry-granted"}, NoNative: true},
+			{Harness: "vhC12Logic", Params: P("K", 2, "JITTER", 1), Solver: "z3-new", Covers: []string{"C12/Logic/retry-granted"}, NoNative: true},
+			{Harness: "vhC12Connect", Params: P("A", 3, "CANCEL", 0, "BODYKINDS", 1, "TPLMASK", 17, "RDIGITS", 2), Covers: []string{"C12/Connect/server-retry-used"}},
+			{Harness: "vhC12Connect", Params: P("A", 4, "CANCEL", 0, "BODYKINDS", 1, "TPLMASK", 9), Covers: []string{"C11/Connect/retries-exhausted"}},
+		},
+		Labels: []string{"C12/", "panic:"},
+		Bounds: map[string]string{
+			"quick":    "mergeDefaults on a fully symbolic Backoff (64-bit integers, IEEE doubles, NaN excluded); the backoff controller through every sequence of 3 events {retry requested, successful connection with server retry in {0,-5ns,250ms,4s}} with InitialInterval in {1ns,1us,3s}, Multiplier in {1,1.5,2}, MaxInterval in {0,2.5us,7s}, MaxRetries in {-1,0,1,3}, Jitter -1, symbolic MaxElapsedTime in [-1,2^40] and a symbolic non-decreasing clock; the Connect loop with scripts of <=2 attempts whose streams carry retry:<2 symbolic bytes>, and <=3 attempts for the retry-count limit",
+			"thorough": "sequences of 4 events; Jitter in {0.5,0.25,0.9} with an arbitrary rng value in [0,1) for 2 events (floating point, z3 5.1); Connect scripts one attempt longer",
+		},
+		Outside: []string{"real-valued Jitter/Multiplier other than the listed ones in the schedule clauses (mergeDefaults is decided for all values)", "waits after the first one of a series started by a server retry value inside the Connect harness (floating-point growth: decided in the controller harness for the listed configurations)", "float to Duration overflow", "wall-clock timing: timers fire at once, time.Now is an arbitrary non-decreasing value"},
+		Oracle:  "recurrence b_1 = InitialInterval or the server retry value, b_(k+1) = min(b_k*Multiplier, MaxInterval); wait within +-Jitter of b_k (exactly b_k for -1), rounded outward to whole nanoseconds; at most MaxRetries grants in a row; refusal only when elapsed+wait would exceed MaxElapsedTime; OnRetry once per retry with the duration the timer is armed with",
+	}
 }
